@@ -28,4 +28,166 @@ structure WF (T : Tables) : Prop where
   disjoint : ∀ t ∈ csvTypes T, t ∉ featTypes T
   rec_not_csv : ∀ e ∈ T.csvFiles, e.2 ≠ T.recordsDir
 
+/-! ### helper lemmas: the sorted-set functions, membership in the plan, keep-lists vs `sel` -/
+
+theorem mem_insertS {x z : String} {l : List String} : z ∈ insertS x l ↔ z = x ∨ z ∈ l := by
+  induction l with
+  | nil => simp [insertS]
+  | cons y ys ih =>
+    simp only [insertS]
+    split
+    · rename_i h; subst h; simp
+    · split
+      · simp
+      · simp only [List.mem_cons, ih]
+        constructor
+        · rintro (h | h | h) <;> simp [h]
+        · rintro (h | h | h) <;> simp [h]
+
+theorem mem_sortS {z : String} {l : List String} : z ∈ sortS l ↔ z ∈ l := by
+  induction l with
+  | nil => simp [sortS]
+  | cons y ys ih =>
+    have : sortS (y :: ys) = insertS y (sortS ys) := rfl
+    rw [this, mem_insertS, ih]; simp
+
+theorem string_lt_of_ne_of_not_lt {x y : String} (hne : ¬ x = y) (hlt : ¬ x < y) : y < x := by
+  apply Classical.byContradiction
+  intro h
+  exact hne (String.le_antisymm (String.not_lt.mp h) (String.not_lt.mp hlt))
+
+theorem pairwise_insertS {x : String} {l : List String} (h : l.Pairwise (· < ·)) :
+    (insertS x l).Pairwise (· < ·) := by
+  induction l with
+  | nil => simp [insertS]
+  | cons y ys ih =>
+    rw [List.pairwise_cons] at h
+    simp only [insertS]
+    split
+    · exact List.pairwise_cons.mpr h
+    · rename_i hxy
+      split
+      · rename_i hlt
+        refine List.pairwise_cons.mpr ⟨?_, List.pairwise_cons.mpr h⟩
+        intro z hz
+        rcases List.mem_cons.mp hz with rfl | hz
+        · exact hlt
+        · exact String.lt_trans hlt (h.1 z hz)
+      · rename_i hlt
+        refine List.pairwise_cons.mpr ⟨?_, ih h.2⟩
+        intro z hz
+        rcases mem_insertS.mp hz with rfl | hz
+        · exact string_lt_of_ne_of_not_lt hxy hlt
+        · exact h.1 z hz
+
+theorem pairwise_sortS (l : List String) : (sortS l).Pairwise (· < ·) := by
+  induction l with
+  | nil => simp [sortS]
+  | cons y ys ih => exact pairwise_insertS ih
+
+theorem nodup_sortS (l : List String) : (sortS l).Nodup := by
+  have h := pairwise_sortS l
+  unfold List.Nodup
+  exact h.imp (fun {a b} hab heq => by subst heq; exact String.lt_irrefl _ hab)
+
+theorem nodup_existing (T : Tables) (a : Args) (kind : String → Kind) : (existing T a kind).Nodup := by
+  unfold existing
+  have h := nodup_sortS ((candidates T a).filter (fun p => (kind p).lexists))
+  unfold List.Nodup at h ⊢
+  exact List.pairwise_reverse.mpr (h.imp (fun {a b} hab => Ne.symm hab))
+
+theorem mem_existing {T : Tables} {a : Args} {kind : String → Kind} {p : String} :
+    p ∈ existing T a kind ↔ (p ∈ candidates T a ∧ (kind p).lexists = true) := by
+  simp [existing, mem_sortS, List.mem_filter]
+
+theorem nodup_toDelete (T : Tables) (a : Args) (kind : String → Kind) : (toDelete T a kind).Nodup := by
+  unfold toDelete
+  simp only
+  split
+  · exact (nodup_existing T a kind).erase _
+  · exact nodup_existing T a kind
+
+theorem mem_toDelete {T : Tables} {a : Args} {kind : String → Kind} {p : String} :
+    p ∈ toDelete T a kind ↔
+      (p ∈ candidates T a ∧ (kind p).lexists = true ∧ ¬ (mustKeep T a = true ∧ p = T.recordsDir)) := by
+  unfold toDelete
+  simp only
+  split
+  · rename_i h
+    rw [Bool.and_eq_true] at h
+    rw [(nodup_existing T a kind).mem_erase_iff, mem_existing]
+    constructor
+    · rintro ⟨h1, h2, h3⟩; exact ⟨h2, h3, fun hh => h1 hh.2⟩
+    · rintro ⟨h2, h3, h1⟩; exact ⟨fun hh => h1 ⟨h.1, hh⟩, h2, h3⟩
+  · rename_i h
+    rw [Bool.and_eq_true, List.contains_iff_mem, mem_existing] at h
+    rw [mem_existing]
+    constructor
+    · rintro ⟨h1, h2⟩
+      refine ⟨h1, h2, ?_⟩
+      rintro ⟨h3, rfl⟩
+      exact h ⟨h3, h1, h2⟩
+    · rintro ⟨h1, h2, _⟩; exact ⟨h1, h2⟩
+
+theorem mem_candidates {T : Tables} {a : Args} {p : String} :
+    p ∈ candidates T a ↔
+      ((∃ t, (t, p) ∈ T.csvFiles ∧ t ∉ keepCsv T a) ∨ (∃ t, (t, p) ∈ T.featDirs ∧ t ∉ keepFeat T a) ∨
+        p = T.recordsDir) := by
+  simp [candidates, List.mem_filter]
+
+theorem candidates_sub (T : Tables) (a : Args) (p : String) (h : p ∈ candidates T a) : p ∈ datasetPaths T := by
+  rw [mem_candidates] at h
+  simp only [datasetPaths, List.mem_append, List.mem_map, List.mem_singleton]
+  rcases h with ⟨t, h, _⟩ | ⟨t, h, _⟩ | h
+  · exact Or.inl (Or.inl ⟨(t, p), h, rfl⟩)
+  · exact Or.inl (Or.inr ⟨(t, p), h, rfl⟩)
+  · exact Or.inr h
+
+theorem not_mem_keepCsv {T : Tables} (hT : WF T) (a : Args) {t : String} (ht : t ∈ csvTypes T) :
+    t ∉ keepCsv T a ↔ sel a t = true := by
+  have hd := hT.disjoint t ht
+  unfold keepCsv sel
+  by_cases ho : a.only.isEmpty = true
+  · by_cases hs : a.skip.isEmpty = true
+    · simp [ho, List.isEmpty_iff.mp hs]
+    · simp [ho, hs, List.mem_filter, hd]
+  · simp [ho, List.mem_filter, ht]
+
+theorem not_mem_keepFeat {T : Tables} (hT : WF T) (a : Args) {t : String} (ht : t ∈ featTypes T) :
+    t ∉ keepFeat T a ↔ sel a t = true := by
+  have hd : t ∉ csvTypes T := fun h => hT.disjoint t h ht
+  unfold keepFeat sel
+  by_cases ho : a.only.isEmpty = true
+  · by_cases hs : a.skip.isEmpty = true
+    · simp [ho, List.isEmpty_iff.mp hs]
+    · simp [ho, hs, List.mem_filter, hd]
+  · simp [ho, List.mem_filter, ht]
+
+theorem keepFeat_not_csv {T : Tables} (hT : WF T) (a : Args) {t : String} (hk : t ∈ keepFeat T a) :
+    t ∉ csvTypes T := by
+  unfold keepFeat at hk
+  split at hk
+  · exact fun hc => hT.disjoint t hc (List.mem_filter.mp hk).1
+  · split at hk
+    · simpa using (List.mem_filter.mp hk).2
+    · simp at hk
+
+theorem mustKeep_eq_needs {T : Tables} (hT : WF T) (a : Args) : mustKeep T a = needs T a := by
+  rw [Bool.eq_iff_iff]
+  unfold mustKeep needs
+  simp only [List.any_eq_true, List.mem_append, List.contains_iff_mem, Bool.not_eq_true', ← Bool.not_eq_true]
+  constructor
+  · rintro ⟨t, hk, hs⟩
+    refine ⟨t, hs, ?_⟩
+    have hc := hT.stores_csv t hs
+    rcases hk with hk | hk
+    · intro h; exact ((not_mem_keepCsv hT a hc).mpr h) hk
+    · exact absurd hc (keepFeat_not_csv hT a hk)
+  · rintro ⟨t, hs, hsel⟩
+    have hc := hT.stores_csv t hs
+    refine ⟨t, Or.inl ?_, hs⟩
+    apply Classical.byContradiction
+    intro h
+    exact hsel ((not_mem_keepCsv hT a hc).mp h)
+
 end Kapture.C19
